@@ -29,10 +29,126 @@ const fixedDefs = `
 `
 
 // BuildQuery renders the SMT-LIB script for an obligation.
-func (p *Prog) BuildQuery(o *Obligation, getModel []string) string {
-	asserts := append([]*Term{}, o.Facts[:o.NFacts]...)
+// mentionsHeavy: does the term mention a translated recursive spec function (the evaluation spec family)?
+func (p *Prog) mentionsHeavy(t *Term, memo map[int]bool) bool {
+	if v, ok := memo[t.id]; ok {
+		return v
+	}
+	r := false
+	if sd, ok := p.specs[t.Head]; ok && sd.Raw == "" && len(t.Args) == len(sd.Params) && len(t.Args) > 0 && p.specIsRecursive(t.Head) && p.heavySpec(t.Head) {
+		r = true
+	}
+	if !r {
+		for _, a := range t.Args {
+			if p.mentionsHeavy(a, memo) {
+				r = true
+				break
+			}
+		}
+	}
+	memo[t.id] = r
+	return r
+}
+
+// heavySpec: spec functions that belong to the same recursive family as specEval.
+func (p *Prog) heavySpec(name string) bool {
+	if _, ok := p.specs["specEval"]; !ok {
+		return false
+	}
+	if name == "specEval" {
+		return true
+	}
+	p.ensureSpec(name)
+	seen := map[string]bool{}
+	var reach func(n string) bool
+	reach = func(n string) bool {
+		if n == "specEval" {
+			return true
+		}
+		if seen[n] {
+			return false
+		}
+		seen[n] = true
+		sd := p.specs[n]
+		if sd == nil {
+			return false
+		}
+		p.ensureSpec(n)
+		for _, d := range sd.Deps {
+			if reach(d) {
+				return true
+			}
+		}
+		return false
+	}
+	return reach(name)
+}
+
+// BuildQueryLight drops the hypotheses that mention the evaluation-spec family (sound: fewer
+// hypotheses); only offered when the goal itself does not mention it.
+func (p *Prog) BuildQueryLight(o *Obligation) (string, bool) {
+	memo := map[int]bool{}
+	if p.mentionsHeavy(o.Goal, memo) {
+		return "", false
+	}
+	var asserts []*Term
+	dropped := 0
+	for _, f := range p.relevantFacts(o) {
+		if p.mentionsHeavy(f, memo) {
+			dropped++
+			continue
+		}
+		asserts = append(asserts, f)
+	}
+	if dropped == 0 {
+		return "", false
+	}
 	asserts = append(asserts, Not(o.Goal))
-	asserts = append(asserts, p.unfoldInstances(asserts, 3, 400)...)
+	if !o.noLemmas {
+		asserts = append(asserts, p.lemmaAxioms()...)
+	}
+	return p.buildScript(asserts, nil), true
+}
+
+// relevantFacts: hypotheses emitted in blocks from which the obligation's block is reachable
+// (facts of sibling branches cannot matter; dropping hypotheses is sound).
+func (p *Prog) relevantFacts(o *Obligation) []*Term {
+	facts := o.Facts[:o.NFacts]
+	if o.ex == nil || o.ex.fn == nil || o.factBlk == nil || o.blk < 0 || len(o.factBlk) < o.NFacts {
+		return facts
+	}
+	fn := o.ex.fn
+	if o.blk >= len(fn.Blocks) {
+		return facts
+	}
+	anc := map[int]bool{o.blk: true}
+	stack := []int{o.blk}
+	for len(stack) > 0 {
+		b := fn.Blocks[stack[len(stack)-1]]
+		stack = stack[:len(stack)-1]
+		for _, pr := range b.Preds {
+			if b.Dominates(pr) {
+				continue // back edge
+			}
+			if !anc[pr.Index] {
+				anc[pr.Index] = true
+				stack = append(stack, pr.Index)
+			}
+		}
+	}
+	var out []*Term
+	for i, f := range facts {
+		if bi := o.factBlk[i]; bi < 0 || anc[bi] {
+			out = append(out, f)
+		}
+	}
+	return out
+}
+
+func (p *Prog) BuildQuery(o *Obligation, getModel []string) string {
+	asserts := append([]*Term{}, p.relevantFacts(o)...)
+	asserts = append(asserts, Not(o.Goal))
+	asserts = append(asserts, p.unfoldInstances([]*Term{o.Goal}, 2, 40)...)
 	if !o.noLemmas {
 		asserts = append(asserts, p.lemmaAxioms()...)
 	}
@@ -379,9 +495,13 @@ func (p *Prog) dischargeAll(obls []*Obligation, timeout time.Duration, dir strin
 	var wg sync.WaitGroup
 	var mu sync.Mutex
 	queries := make([]string, len(obls))
+	light := make([]string, len(obls))
 	for i, o := range obls {
 		if o.Verdict == "" {
 			queries[i] = p.BuildQuery(o, nil)
+			if q, ok := p.BuildQueryLight(o); ok {
+				light[i] = q
+			}
 		}
 	}
 	for i, o := range obls {
@@ -394,6 +514,16 @@ func (p *Prog) dischargeAll(obls []*Obligation, timeout time.Duration, dir strin
 			defer wg.Done()
 			defer func() { <-sem }()
 			tag := fmt.Sprintf("q%04d", i)
+			if light[i] != "" {
+				// first without the evaluation-spec hypotheses: unsat there is unsat with them
+				rl := runPortfolio(light[i], timeout, dir, tag+"l", false)
+				if rl.verdict == "unsat" {
+					mu.Lock()
+					o.Verdict, o.Solver, o.Secs, o.Output = rl.verdict, rl.solver+"(sliced)", rl.secs, rl.output
+					mu.Unlock()
+					return
+				}
+			}
 			r := runPortfolio(queries[i], timeout, dir, tag, false)
 			if r.verdict == "unknown" || r.verdict == "timeout" {
 				// one retry with a longer budget
